@@ -182,6 +182,9 @@ def quick_family() -> List[Skeleton]:
     add("$deref int fields", [E(nm.m(), [E("$deref", fields={"main_reg": E(nm.d()), "constant_offset": E(8),
                                                              "register_multiplier": E(nm.d()),
                                                              "constant_multiplier": E(4)})])], "deref")
+    add("$deref zero offset and unit scale written as ints", [E(nm.m(), [E("$deref", fields={
+        "main_reg": E(nm.d()), "constant_offset": E(0), "register_multiplier": E(nm.d()), "constant_multiplier": E(1)})])], "deref")
+    add("$deref zero offset only", [E(nm.m(), [E("$deref", fields={"main_reg": E(nm.d()), "constant_offset": E(0)}), E(0)])], "deref")
     # --- capture groups (C05)
     add("instr capture twice", [E("&i"), E(nm.m()), E("&i")], "cap")
     add("operand capture twice", [E(nm.m(), [E("&x"), E(nm.o())]), E(nm.m(), [E(nm.o()), E("&x")])], "cap")
@@ -200,6 +203,17 @@ def quick_family() -> List[Skeleton]:
     add("capture in deref, offset written first", [
         E(nm.m(), [E("$deref", fields={"constant_offset": E("&k"), "main_reg": E("&r")})]),
         E(nm.m(), [E("&r"), E("&k")])], "cap", "deref")
+    for order in (("main_reg", "register_multiplier", "constant_multiplier", "constant_offset"),
+                  ("constant_offset", "constant_multiplier", "register_multiplier", "main_reg"),
+                  ("constant_offset", "register_multiplier", "main_reg", "constant_multiplier")):
+        caps = {"main_reg": "&a", "register_multiplier": "&b", "constant_multiplier": "&c", "constant_offset": "&k"}
+        add(f"four captures defined in one deref, written {'/'.join(o[:4] for o in order)}", [
+            E(nm.m(), [E("$deref", fields={f: E(caps[f]) for f in order})]),
+            E(nm.m(), [E("&k"), E("&b")]), E(nm.m(), [E("&c"), E("&a")])], "cap", "deref")
+    add("offset and index captured, base plain", [
+        E(nm.m(), [E("$deref", fields={"main_reg": E(nm.d()), "constant_offset": E("&off"), "register_multiplier": E("&idx"),
+                                       "constant_multiplier": E(nm.d())})]),
+        E(nm.m(), [E("&off")]), E(nm.m(), [E("&idx")])], "cap", "deref")
     add("capture bound as operand, used in deref", [
         E(nm.m(), [E("&r")]),
         E(nm.m(), [E("$deref", fields={"main_reg": E("&r"), "constant_offset": E(nm.d())})])], "cap", "deref")
